@@ -30,6 +30,9 @@ CHECKS = {
  "C02": ("property-based testing (rapid): generated programs compiled into a reflective driver; differential against an independent schema-driven binary-protocol codec in both directions, plus structurally valid wire perturbations",
          "Generated programs are compiled by the thriftgo under test, linked with a generic reflective driver and exercised with generated values: bytes of generated Write must decode under the strict reference decoder to the value; reference encodings must Read back to the value (reflection dump by thrift tags); unknown fields, retagged fields, missing required fields and ill-formed unions must behave as the property states.",
          "Trusted: the reference codec (written from the Thrift binary protocol specification, shares no code with thriftgo/apache/gopkg), apache thrift v0.13.0's TBinaryProtocol/TMemoryBuffer as the transport under the generated code."),
+ "C15": ("property-based testing (rapid): descriptor content expected from the generating model vs thrift_reflection.GetFileDescriptor, lookup agreement across includes, Marshal/Unmarshal round trip",
+         "Generated multi-file programs go through the real front end; the file descriptors built by thrift_reflection are compared field by field with content computed from the model alone (names, ids, requiredness, type expressions, defaults, enum numbers, annotations with all values, comments, base service, oneway, includes, namespaces); lookups by name and id across included files must reach the model's definition; encode/decode of a descriptor is the identity. In-process half only: descriptors embedded in generated Go packages are not yet driven.",
+         "Trusted: the model-side expectation builder (written from descriptor.thrift's documented field meanings)."),
 }
 NOT_YET = "check not built yet (work in progress; the technique applies, see DESIGN.md)"
 
